@@ -102,6 +102,16 @@ def r08_listeq(chk, prog, rule="R08-listeq"):
                 sides = [c[1], c[2][0]]
                 if all(re.fullmatch(r"len\(arg[12](\.items)?\)", x) for x in sides) and {x[7] for x in sides} == {"1", "2"}:
                     lens = True
+        if lens:
+            # ... next to an element-wise comparison *by position*: both item sequences zipped
+            zipped = False
+            for ev in S.events:
+                if ev[0] == "call" and ev[3] == fid and mir.strip_generics(ev[1]).endswith("::zip") and len(ev[2]) >= 2:
+                    a0 = " ".join(sym.fmt(t) for t in ev[2][0])
+                    a1 = " ".join(sym.fmt(t) for t in ev[2][1])
+                    if ("arg1" in a0 and "arg2" in a1) or ("arg2" in a0 and "arg1" in a1):
+                        zipped = True
+            lens = zipped
         if not (whole or lens):
             chk.add(Finding(rule, "%s::%s" % (rule, mir.strip_generics(fid)), "%s is not an equality of the whole item sequences (neither Vec/slice `==` on both `items` fields nor an equal-length test that the result depends on): lists of different length can compare equal, so merge treats an element with additional sub-items as identical and drops it" % fid, b.where()))
     chk.rule(rule, "hand-written equality of ItemList: whole-sequence equality", n, floor=1)
@@ -110,6 +120,11 @@ def r08_listeq(chk, prog, rule="R08-listeq"):
 def run(chk):
     genrules.r_eq(chk, rule_complete="R08-eq", rule_layout=None)
     r08_listeq(chk, mir.prog())
+    from . import c13, textrules
+    c13.shared(chk, "R08-list", "merge compares and looks up elements of both modules through ItemList")
+    # "identical elements are shared": IF_DATA payloads are part of the comparison, and they are compared for equality
+    from . import c01
+    c01.r01_eq_ifdata(chk, rule="R08-eq-ifdata", rule_count="R08-eq-ifdata")
     prog = mir.prog()
     mf = mergefacts.MergeFacts(prog)
     if mf.S is None:
